@@ -52,21 +52,24 @@ Definition enc_fentry (p : N * fentry) : N * N * N * N :=
     harness build with tracing-subscriber's parking_lot feature, whose locks do not) *)
 Definition poisons (pl : bool) : bool := Gen_fmtbuf.record_unwind_poisons && negb pl.
 
+(** does format_timestamp fall back to "<unknown time>" when the timer fails? (format/mod.rs, read on every run) *)
+Definition current_timer_fallback : bool := Gen_fmtbuf.timer_fallback.
+
 Definition plans_of (l : list (list script)) : nat -> list script := fun k => nth k l [].
 
 (** Full / Compact: a thread's ops under fault plans (one plan per emission, in completion order). *)
 Definition eval_thread_f (lie : bool) (f : fmt) (o : opts) (sc : spancfg) (w : wexp) (th : thr) (ops : list op)
   (plans : list (list script)) :=
   map enc_fentry (sink_log_f current_tee_both (Cfg current_policy lie) meta_of w (plans_of plans)
-                    (thread_events_g (guarded (poisons false) (format_event f o th)) sc (o_timer o) ops)).
+                    (thread_events_g (time_guard current_timer_fallback (o_timer o) (guarded (poisons false) (format_event f o th))) sc (o_timer o) ops)).
 
 (** the parking_lot build (poison cases only) *)
 Definition eval_thread_pl (lie : bool) (f : fmt) (o : opts) (sc : spancfg) (w : wexp) (th : thr) (ops : list op) :=
   map enc_fentry (sink_log_f current_tee_both (Cfg current_policy lie) meta_of w (plans_of [])
-                    (thread_events_g (guarded (poisons true) (format_event f o th)) sc (o_timer o) ops)).
+                    (thread_events_g (time_guard current_timer_fallback (o_timer o) (guarded (poisons true) (format_event f o th))) sc (o_timer o) ops)).
 Definition eval_pretty_pl (lie : bool) (o : opts) (sc : spancfg) (w : wexp) (th : thr) (ops : list op) :=
   map enc_fentry (sink_log_f current_tee_both (Cfg current_policy lie) meta_of w (plans_of [])
-                    (thread_events_g (guarded (poisons true) (format_event_pretty o th)) sc (o_timer o) ops)).
+                    (thread_events_g (time_guard current_timer_fallback (o_timer o) (guarded (poisons true) (format_event_pretty o th))) sc (o_timer o) ops)).
 
 Definition full_thread_f (lie : bool) (f : fmt) (o : opts) (sc : spancfg) (w : wexp) (th : thr) (ops : list op)
   (plans : list (list script)) :=
@@ -80,7 +83,7 @@ Definition pscope (is_root : bool) (event_scope current_scope : list span) : lis
 Definition eval_pretty_f (lie : bool) (o : opts) (sc : spancfg) (w : wexp) (th : thr) (ops : list op)
   (plans : list (list script)) :=
   map enc_fentry (sink_log_f current_tee_both (Cfg current_policy lie) meta_of w (plans_of plans)
-                    (thread_events_g (guarded (poisons false) (format_event_pretty o th)) sc (o_timer o) ops)).
+                    (thread_events_g (time_guard current_timer_fallback (o_timer o) (guarded (poisons false) (format_event_pretty o th))) sc (o_timer o) ops)).
 
 Definition full_pretty_f (lie : bool) (o : opts) (sc : spancfg) (w : wexp) (th : thr) (ops : list op)
   (plans : list (list script)) :=
